@@ -417,7 +417,7 @@ func runCases(c *core.Ctx, byCC map[string]*regime, cases []tcase) int {
 	if mxNonAlnum > 0 {
 		c.Note("MX: %d accepted RFCs contain `&` or `Ñ` (validation skips the generic `^[A-Z0-9]+$` gate for MX). The national RFC format allows these characters, so the C13 statement holds for them; the published JSON-schema pattern of tax.Identity.code admits them too (IdentityCodeSchemaPattern, checked by C11).", mxNonAlnum)
 	}
-	return c.Finish("per regime: codes valid by the published rule (check digits computed independently in the harness), every single-character substitution of such codes inside the positional alphabet plus length edits, random strings over the national alphabet with length of a national format +-1, special-remainder codes, and formatted variants (separators, lower case, country prefix, CH suffix) for the normalisation laws; the same identities as the tax_id of a party document and of the supplier and customer of an invoice, for every party $regime (absent, own, every other registered code), compared with the identity normalised and validated on its own (party.go); non-trivial = validation case in the national format (check-digit logic reached) or normalisation case that changes the text; distinct by regime+code",
+	return c.Finish("per regime: codes valid by the published rule (check digits computed independently in the harness), every single-character substitution of such codes inside the positional alphabet plus length edits, random strings over the national alphabet with length of a national format +-1, special-remainder codes, and formatted variants (separators, lower case, country prefix, CH suffix) for the normalisation laws; the same identities as the tax_id of a party document and of the supplier and customer of an invoice, for every party $regime (absent, own, every other registered code), compared with the identity normalised and validated on its own (party.go); degenerate and extremal number parts per format class (all positions lowest/highest, one position running through its class) with the control characters found by the specification among all one-position and adjacent two-digit completions, plus their single-character edits (boundary.go); every entry point (Identity.Normalize+Validate, tax.ParseIdentity, the regime validator, party Calculate/Normalize+Validate, envelope, supplier and customer of an invoice) on a complete spelling grid (compact/spaced/dotted/dashed/lower x no/one/two prefixes x national suffixes x routed countries), on truncated codes and on the degenerate codes, each held to the specification verdict on the normal form and to the same normal form (entries.go); non-trivial = validation case in the national format (check-digit logic reached) or normalisation case that changes the text; distinct by regime+code",
 		nil)
 }
 
